@@ -46,46 +46,47 @@ class Graph:
         return len(self.out)
 
     def walks(self, max_len: int = 40) -> list[list[dict]]:
-        """Greedy edge cover: go to the nearest node with an untraversed out-edge, then
-        keep following untraversed edges."""
-        untrav: dict[str, set[int]] = {k: {i for i, _ in v} for k, v in self.out.items()}
-        remaining = sum(len(s) for s in untrav.values())
+        """Edge cover: for every node (in BFS order) that still has untraversed out-edges,
+        take the BFS-tree path to it and then keep following untraversed edges (self-loops
+        first, so that rejected/no-op operations are packed into the same walk)."""
+        untrav: dict[str, list[int]] = {}
+        dest: dict[int, str] = {}
+        for k, outs in self.out.items():
+            loops = [i for i, kt in outs if kt == k]
+            moves = [i for i, kt in outs if kt != k]
+            untrav[k] = moves[::-1] + loops[::-1]  # pop() takes self-loops first
+            for i, kt in outs:
+                dest[i] = kt
+        # BFS tree
+        prev: dict[str, tuple[str, int] | None] = {k: None for k in self.inits}
+        order = list(self.inits)
+        dq = deque(self.inits)
+        while dq:
+            u = dq.popleft()
+            for i, v in self.out[u]:
+                if v not in prev:
+                    prev[v] = (u, i)
+                    order.append(v)
+                    dq.append(v)
+        self.unreachable_edges = sum(len(v) for k, v in untrav.items() if k not in prev)
         walks: list[list[dict]] = []
-        dest = {i: kt for outs in self.out.values() for i, kt in outs}
-        unreachable_guard = 0
-        while remaining:
-            # BFS from all initial states to the nearest node with untraversed out-edges
-            prev: dict[str, tuple[str, int] | None] = {k: None for k in self.inits}
-            dq = deque(self.inits)
-            target = None
-            while dq:
-                u = dq.popleft()
-                if untrav[u]:
-                    target = u
-                    break
-                for i, v in self.out[u]:
-                    if v not in prev:
-                        prev[v] = (u, i)
-                        dq.append(v)
-            if target is None:
-                unreachable_guard = remaining
-                break
-            path: list[int] = []
-            u = target
-            while prev[u] is not None:
-                pu, i = prev[u]  # type: ignore[misc]
-                path.append(i)
-                u = pu
-            path.reverse()
-            u = target
-            while untrav[u] and len(path) < max_len:
-                i = min(untrav[u])
-                untrav[u].discard(i)
-                remaining -= 1
-                path.append(i)
-                u = dest[i]
-            walks.append([self.edges[i] for i in path])
-        self.unreachable_edges = unreachable_guard
+        for start in order:
+            while untrav[start]:
+                path: list[int] = []
+                u = start
+                while prev[u] is not None:
+                    pu, i = prev[u]  # type: ignore[misc]
+                    path.append(i)
+                    u = pu
+                path.reverse()
+                u = start
+                n = 0
+                while untrav[u] and n < max_len:
+                    i = untrav[u].pop()
+                    path.append(i)
+                    n += 1
+                    u = dest[i]
+                walks.append([self.edges[i] for i in path])
         return walks
 
 
